@@ -39,6 +39,66 @@ theorem refine_invariant_every_iteration [DecidableEq K] (mode : Mode) (hm : mod
     s.err = false ∧ s.resultAll = some (wsum s.pts) :=
   refine_invariant mode hm init (iters.take k)
 
+/-- T3' (an iteration WITHOUT any new evaluation).  If after the refinement events of the last iteration every
+    K-point of the list is already evaluated (all new children were absorbed by evaluated points — restart from an
+    earlier refinement level, or coinciding points on hexagonal / bcc grids), process() evaluates nothing
+    (`result_sum` contributes 0 and the list is unchanged by it), and the update still has to run: afterwards
+    `result_all = Σ f_i r_i` over the list with its MOVED weights.  The bookkeeping cannot be skipped on the
+    grounds that "nothing was evaluated". -/
+theorem refine_invariant_no_new_evaluation [DecidableEq K] (mode : Mode) (hm : mode ≠ Mode.clear)
+    (init : List (K × K)) (iters : List (List (RefOp K))) (ops : List (RefOp K))
+    (hall : ∀ p ∈ (ops.foldl refStep (runIters keepNew mode init iters)).pts, p.ev = true) :
+    let s1 := ops.foldl refStep (runIters keepNew mode init iters)
+    let s2 := runIters keepNew mode init (iters ++ [ops])
+    (processPts s1.mode s1.pts) = (s1.pts, 0) ∧ s2.pts = s1.pts ∧
+      s2.err = false ∧ s2.resultAll = some (wsum s1.pts) := by
+  intro s1 s2
+  have h := refine_invariant mode hm init (iters ++ [ops])
+  have hs2 : s2 = iterate keepNew s1 := by
+    show runIters keepNew mode init (iters ++ [ops]) = _
+    unfold runIters
+    rw [List.foldl_append]
+    rfl
+  have hproc : processPts s1.mode s1.pts = (s1.pts, 0) := by
+    rw [processPts_eq]
+    have hmap : ∀ (ps : List (KP K)), (∀ p ∈ ps, p.ev = true) → ps.map (procPt s1.mode) = ps ∧ unevSum ps = 0 := by
+      intro ps
+      induction ps with
+      | nil => intro _; exact ⟨rfl, rfl⟩
+      | cons p ps ih =>
+        intro hp
+        have h1 := hp p (List.mem_cons_self ..)
+        obtain ⟨i1, i2⟩ := ih (fun q hq => hp q (List.mem_cons_of_mem _ hq))
+        have hpp : procPt s1.mode p = p := by unfold procPt; rw [if_pos h1]
+        exact ⟨by rw [List.map_cons, hpp, i1], by simp only [unevSum, h1, if_true]; exact i2⟩
+    obtain ⟨m1, m2⟩ := hmap s1.pts hall
+    rw [m1, m2]
+  have hpts : s2.pts = s1.pts := by
+    rw [hs2]
+    have : (iterate keepNew s1).pts = (processPts s1.mode s1.pts).1 := by
+      unfold iterate
+      split
+      · rfl
+      · dsimp only
+        split <;> rfl
+    rw [this, hproc]
+  refine ⟨hproc, hpts, h.1, ?_⟩
+  rw [← hpts]
+  exact h.2
+
+/-- non-vacuity, and the defect class it guards against: two evaluated points; in the next iteration point 0 is
+    divided into one child which is absorbed by the evaluated point 1 — nothing is left to evaluate, the weights
+    moved from (1/2, 1/2) to (0, 1).  The real update gives Σ f r = 7; the rule "skip the update when nothing was
+    evaluated" keeps the previous value 6 (and the previous recorded factors). -/
+theorem skip_rule_loses_weight_changes :
+    let ops := [RefOp.divide 0 [(9 : Rat)], RefOp.merge 1 2]
+    let good := runIters keepNew Mode.memory [((5 : Rat), 1/2), (7, 1/2)] [ops]
+    let bad := runItersSkip keepNew Mode.memory [((5 : Rat), 1/2), (7, 1/2)] [ops]
+    good.pts.map (·.f) = [0, 1] ∧ good.pts.all (·.ev) = true ∧ good.resultAll = some (wsum good.pts) ∧
+      good.resultAll = some 7 ∧
+    bad.pts.map (·.f) = [0, 1] ∧ bad.resultAll = some 6 ∧ wsum bad.pts = 7 ∧ bad.factors = [1/2, 1/2] := by
+  decide +kernel
+
 /-- T4 (discarded results).  Without `allow_restart` and with `adpt_num_iter = 0` the per-K results are cleared;
     run() then performs iteration 0 only, and the result is the weighted sum. -/
 theorem clear_mode_iteration0 (keep : K → Bool) (init : List (K × K)) :
